@@ -145,8 +145,8 @@ pub fn def() -> CheckDef {
         rule: "proptest. Build side: named rcode (BADVERS included) x EDNS (udp 0..65535, version 0..255, option lists with any code / 0..600 bytes) x 0..3 other additional records x optional question x flag subsets, plain and compressed; an independent walker checks: exactly one TYPE 41 record, in the additional section, counted once in ARCOUNT, owner = single root octet, CLASS = udp size, TTL octets = [rcode>>4, version, 0, 0], RDATA = concatenated (code,len,value), header nibble = rcode&15, and the reference decoder reads the model back. Parse side: reference-encoded messages with the OPT record at any index of the additional section, arbitrary DO/Z bits, named and unnamed 12-bit response codes, foreign compression; oracle: opt() = (udp, version, options in order), no TYPE 41 left in additional_records, others in order, rcode() = the named variant for named values (Reserved otherwise). Non-trivial = options non-empty or extended rcode != 0 or other additional records present",
         assumptions: vec!["OPT TTL layout transcribed from RFC 6891 section 6.1.3", "unnamed response codes are only required to show as Reserved"],
         sections: vec![
-            Box::new(PropSection { name: "build", rule: "EDNS on the wire", strategy: build_strategy, cases: (30_000, 1_000_000), check: check_build }),
-            Box::new(PropSection { name: "parse", rule: "EDNS from the wire", strategy: parse_strategy, cases: (30_000, 1_000_000), check: check_parse }),
+            Box::new(PropSection { name: "build", rule: "EDNS on the wire", strategy: build_strategy, cases: (200_000, 2_000_000), check: check_build }),
+            Box::new(PropSection { name: "parse", rule: "EDNS from the wire", strategy: parse_strategy, cases: (200_000, 2_000_000), check: check_parse }),
         ],
     }
 }
